@@ -239,6 +239,54 @@ def run(m, rep, tier):
         else:
             l11.ok(g.name, '%d key value(s), none narrowed' % len(keys), floc(m, g))
 
+    # ---- L13: a chain link is followed only where it is known to be a node ----------------------
+    # a value read from bucket.n / node.next is NULL at the end of every chain and in every empty bucket: an access through
+    # it must sit under its own != NULL test (an open-coded walk that is right only for a non-empty bucket)
+    l13 = rep.rule('L13', 'an access through a walk cursor over chain links (bucket.n / node.next) is dominated by the cursor\'s != NULL test', floor=1)
+
+    def chain_val(f_, r_, seen=None):
+        seen = seen if seen is not None else set()
+        r_ = strip_bitcasts(f_, r_) if isinstance(r_, str) else r_
+        i_ = f_.get(r_) if isinstance(r_, str) else None
+        if i_ is None:
+            return False
+        if r_ in seen:
+            return True
+        seen.add(r_)
+        if i_.op == 'load':
+            return resolve_addr(f_, i_.o[0]).fsteps[-1:] in ((('cstl_hash_bucket', 'n'),), (('cstl_hash_node', 'next'),))
+        if i_.op in ('phi', 'select'):
+            ops_ = [o for o in (i_.o if i_.op == 'phi' else i_.o[1:]) if o != 'null']
+            return bool(ops_) and all(chain_val(f_, o, seen) for o in ops_)
+        return False
+    n13 = 0
+    for g in mod.defined():
+        pv13 = None
+        bad13 = []
+        k13 = 0
+        for i_ in g.all_insts():
+            if i_.op not in ('load', 'store'):
+                continue
+            a_ = resolve_addr(g, i_.o[0] if i_.op == 'load' else i_.o[1])
+            if not a_.fsteps or not isinstance(a_.root, str) or not chain_val(g, a_.root):
+                continue
+            ri_ = g.get(strip_bitcasts(g, a_.root))
+            if ri_ is None or ri_.op != 'phi':
+                continue        # only walk cursors: a link read once may be known to be a node for reasons of its own (it was just found)
+            k13 += 1
+            pv13 = pv13 or Prover(g)
+            if not pv13.prove_at(('ne', strip_bitcasts(g, a_.root), 'null'), i_):
+                bad13.append('%s is accessed at %s through a chain link value that is not known to be non-NULL there (the bucket may be empty, the '
+                             'walk may have reached the end of the chain)' % (a_.path, i_.loc()))
+        if k13:
+            n13 += 1
+            if bad13:
+                l13.violation(g.name, '; '.join(sorted(set(bad13))[:2]), floc(m, g), {})
+            else:
+                l13.ok(g.name, '%d access(es) through chain link values, each under the != NULL test' % k13, floc(m, g))
+    if n13 == 0:
+        l13.ok('hash.c', 'NOT DECIDED: no access through a value read from a chain link (walks take the node as a parameter)')
+
     # ---- L9: swap completeness ------------------------------------------------------------
     from .util import check_swap_complete
     _sw = rep.rule('L9', 'swap exchanges every member of the two tables (array, geometry, pending geometry, clean bit, count, offset)', floor=1)
